@@ -24,7 +24,10 @@ EXTERNAL = {
     # CPython 3.12: a carriage return directly followed by a non-ASCII character makes the tokenizer decode half a
     # character: UnicodeDecodeError; the 3.12 tokenizer encodes the line as UTF-8, which a lone surrogate ('\ud800', a
     # legal Python str that the API can be given) refuses: UnicodeEncodeError
-    "tokenize.generate_tokens": ("tokenize.TokenError", "builtins.SyntaxError", "builtins.UnicodeDecodeError", "builtins.UnicodeEncodeError"),
+    # CPython 3.12.1: an indented line followed by a later line holding a NUL character (' 5\n\0') makes the C tokenizer
+    # return "a result with an exception set": SystemError (a NUL elsewhere is a TokenError)
+    "tokenize.generate_tokens": ("tokenize.TokenError", "builtins.SyntaxError", "builtins.UnicodeDecodeError", "builtins.UnicodeEncodeError",
+                                 "builtins.SystemError"),
     # encoding property: unknown name -> LookupError; a name with an embedded NUL or a lone surrogate -> ValueError
     "codecs.lookup": ("builtins.LookupError", "builtins.ValueError"),
     # DateTime cells; a format with the same directive twice (rule DD.DD) makes _strptime compile a regex with a
@@ -119,8 +122,9 @@ METHODS = {
     "sheet_by_index": (ANY,),  # xlrd: IndexError for a missing sheet
     "cell": (ANY,),  # xlrd
     # csv.Error of a writer needs QUOTE_NONE or doublequote off without escapechar: _as_delimited_keywords never builds that
-    "writerow": ("builtins.UnicodeEncodeError",),
-    "write": ("builtins.UnicodeEncodeError",),
+    # text written to a file is encoded: most codecs raise UnicodeEncodeError, some (idna, punycode) a plain UnicodeError
+    "writerow": ("builtins.UnicodeError",),
+    "write": ("builtins.UnicodeError",),
     "write_string": (),
 }
 
